@@ -204,7 +204,7 @@ def allocfail(case, res):
             S.sig("fault", name, victim.transport if victim else "timer-or-none")
             # only the connection whose processing hit the failure may have been dropped
             for c in S.conns.values():
-                if c.closed and not c.ended and not c.may_close and c.fd != ffd:
+                if c.closed and not c.ended and not c.may_close and c.fd not in st["alloc_fail_fds"]:
                     S.v("conn/allocation-failure-dropped-another-connection", "%s (fault while processing fd %d)" % (c.name, ffd))
         probe(S, "")
         st = S.close_all()
